@@ -68,6 +68,25 @@ ERRS = {ValueError: "ValueError", IndexError: "IndexError", StopIteration: "Stop
         TypeError: "TypeError"}
 
 
+class Item:
+    """sequence member: equal by label (so sequences can hold equal members), identified by uid"""
+    def __init__(self, label, uid):
+        self.label, self.uid = label, uid
+    def __eq__(self, other):
+        return isinstance(other, Item) and other.label == self.label
+    def __hash__(self):
+        return hash(self.label)
+    def __repr__(self):
+        return "Item(%r,#%d)" % (self.label, self.uid)
+
+
+def ident_index(seq, r):
+    for k, x in enumerate(seq):
+        if x is r:
+            return k
+    raise RuntimeError("choice returned an object that is not a member of the sequence: %r" % (r,))
+
+
 def run_history(case):
     """run the history against the real coba.random; returns list of outputs (one per hist entry)"""
     import coba.random as cr
@@ -123,16 +142,17 @@ def run_history(case):
                         r = ["input-mutated"]
                 outs.append({"perm": list(r)})
             elif op in ("choice", "choicew"):
-                seq = ["s%d" % k for k in range(h["n"])]
+                labels = h.get("labels") or list(range(h["n"]))
+                seq = [Item(labels[k], k) for k in range(h["n"])]
                 w = h.get("w")
                 if w is not None:
                     w = [(p[0] if p[1] == 1 else tofloat(p)) for p in w]
                 if op == "choice":
                     r = g.choice(seq, w) if (w is not None or h.get("explicit_none")) else g.choice(seq)
-                    outs.append({"idx": seq.index(r)})
+                    outs.append({"idx": ident_index(seq, r)})
                 else:
                     r, rw = g.choicew(seq, w) if (w is not None or h.get("explicit_none")) else g.choicew(seq)
-                    outs.append({"idx": seq.index(r), "w": q(rw)})
+                    outs.append({"idx": ident_index(seq, r), "w": q(rw)})
             elif op == "gauss":
                 outs.append({"gaussv": [g.gauss(h.get("mu", 0), h.get("sigma", 1))]})
             elif op == "gausses":
@@ -288,12 +308,17 @@ class C05(Property):
         if r < 76:
             n = rng.choice([0, 1, 1, 2, 2, 3, 4, 6]) if rng.chance(0.15) else rng.choice([1, 1, 2, 2, 3, 4, 6])
             h = {"i": i, "op": "choice", "n": n, "w": self.gen_weights(rng, n)}
+            if n > 1 and rng.chance(0.4):
+                h["labels"] = [rng.below(2) for _ in range(n)]
             if h["w"] is None and rng.chance(0.3):
                 h["explicit_none"] = True
             return h
         if r < 86:
             n = rng.choice([1, 1, 2, 2, 3, 4, 6])
-            return {"i": i, "op": "choicew", "n": n, "w": self.gen_weights(rng, n)}
+            h = {"i": i, "op": "choicew", "n": n, "w": self.gen_weights(rng, n)}
+            if n > 1 and rng.chance(0.4):
+                h["labels"] = [rng.below(2) for _ in range(n)]
+            return h
         if r < 94:
             h = {"i": i, "op": "gauss"}
             if rng.chance(0.3):
